@@ -135,8 +135,12 @@ func TruncateInBytes(s string, n int) (string, bool) {
 	r := []rune(s)
 	truncationTarget := n - 3
 
-	// Next, let's truncate the runes to the lower possible number.
-	truncatedRunes := r[:truncationTarget]
+	// Next, let's truncate the runes to the lower possible number. A string of
+	// multi-byte characters can have fewer runes than the target has bytes.
+	truncatedRunes := r
+	if len(truncatedRunes) > truncationTarget {
+		truncatedRunes = r[:truncationTarget]
+	}
 	for len(string(truncatedRunes)) > truncationTarget {
 		truncatedRunes = r[:len(truncatedRunes)-1]
 	}
